@@ -432,7 +432,15 @@ def render(e):
         return "[%s; %s]" % (render(e[1]), e[2])
     if t == "cycle":
         return "cycle(_%d)" % e[1]
-    return "?%s" % (e[1] if len(e) > 1 else "")
+    if t == "isvariant":
+        return "%s is %s" % (render(e[1]), e[2])
+    if t in ("pred_and", "pred_or"):
+        return "(%s %s %s)" % (render(e[1]), "&&" if t == "pred_and" else "||", render(e[2]))
+    if t == "var":
+        return str(e[1])
+    if t == "applied":
+        return "|x| " + render(e[1])
+    return "?%s" % (e[1] if len(e) > 1 else "",)
 
 
 def walk(e):
